@@ -7,6 +7,9 @@ From RPFT Require Import Base.Sexp Base.PyStr Base.PyStrFacts Base.Result Gen.Ta
      Comp.RefineEdge.
 Import ListNotations.
 
+Section WithNames.
+Context {GN : GenNames}.
+
 (* ---------------------------------------------------------------- loose exits of a decision *)
 Definition is_dnone (d : dest) : bool := match d with DNone => true | _ => false end.
 
@@ -55,7 +58,7 @@ Definition dec_filled (d : rdec) (tgt : dest) : rdec :=
 
 Definition sw_filled (r : cswitch) (dd : dst) : cswitch :=
   mkSwitch (sw_operand r) (sw_result r) (match sw_wait r with CWTimeout t c => CWTimeout t (fill_cat dd c) | w => w end)
-           (sw_cases r) (map (fill_cat dd) (sw_cats r)) (fill_cat dd (sw_default r)).
+           (sw_cases r) (map (fill_cat dd) (sw_cats r)) (fill_cat dd (sw_default r)) (sw_auto r).
 
 Lemma cat_sim_fill phi uu x c tgt dd :
   cat_sim phi uu x c -> dest_sim phi uu tgt dd -> cat_sim phi uu (fst x, fill (snd x) tgt) (fill_cat dd c).
@@ -72,7 +75,7 @@ Qed.
 Lemma dec_sim_fill phi uu d r tgt dd :
   dec_sim phi uu d r -> dest_sim phi uu tgt dd -> dec_sim phi uu (dec_filled d tgt) (sw_filled r dd).
 Proof.
-  intros [H1 H2 H3 H4 H5 H6 H7 H8] Ht. constructor.
+  intros [H1 H2 H3 H4 H5 H6 H7 H8 H9] Ht. constructor.
   - exact H1.
   - exact H2.
   - exact H3.
@@ -83,12 +86,18 @@ Proof.
   - cbn. apply cat_sim_fill; assumption.
   - rewrite sw_filled_uuids. exact H7.
   - rewrite sw_filled_uuids. exact H8.
+  - eapply marks_same; [| | | |exact H9].
+    + cbn. rewrite map_map. reflexivity.
+    + cbn. rewrite map_map. reflexivity.
+    + unfold sw_filled, sw_all_cats. cbn. rewrite !map_app, map_map. cbn. f_equal. f_equal. destruct (sw_wait r); reflexivity.
+    + reflexivity.
 Qed.
 
 Lemma shape_filled cls d tgt : shape_ok cls d -> shape_ok cls (dec_filled d tgt).
 Proof.
   destruct cls; cbn.
-  - unfold plain_dec. cbn. rewrite map_length. auto.
+  - unfold plain_dec. cbn. rewrite map_length. intros (P1 & P2 & P3). split; [exact P1|]. split; [exact P2|].
+    destruct (rd_noresp d) as [[nm x]|]; [exact P3|exact I].
   - intros (x & ->). cbn. eexists. reflexivity.
   - intros (x & ->). cbn. eexists. reflexivity.
 Qed.
@@ -98,6 +107,34 @@ Proof. intros E. unfold node_fill_loose. rewrite E. reflexivity. Qed.
 
 Lemma node_has_loose_switch nd cls r : cn_body nd = BSwitch cls r -> node_has_loose nd = sw_loose r.
 Proof. intros E. unfold node_has_loose, node_exits, sw_loose. rewrite E. reflexivity. Qed.
+
+(* the buckets of a random split *)
+Lemma buckets_loose_sim phi uu l : forall i l',
+  Forall2 (bucket_sim phi uu) (number_from i l) l' ->
+  existsb (fun cd => is_dnone (snd cd)) l = existsb (fun c => is_loose (x_dest (cc_exit c))) l'.
+Proof.
+  induction l as [|x l IH]; intros i l' H; cbn [number_from] in H; inversion H as [|a c l0 l1 Hxc Hl]; subst; cbn [existsb]; [reflexivity|].
+  destruct Hxc as [_ Hd]. cbn [fst snd] in Hd. rewrite (dest_sim_loose _ _ _ _ Hd). rewrite (IH _ _ Hl). reflexivity.
+Qed.
+
+Lemma rand_loose_sim phi uu d r :
+  rand_sim phi uu d r -> existsb (fun cd => is_dnone (snd cd)) (rd_cats d) = existsb (fun c => is_loose (x_dest (cc_exit c))) (rr_cats r).
+Proof. intros [_ _ H _]. eapply buckets_loose_sim, H. Qed.
+
+Lemma number_from_map' {X Y} (f : X -> Y) l i : number_from i (map f l) = map (fun ix => (fst ix, f (snd ix))) (number_from i l).
+Proof. revert i. induction l as [|a r IH]; intros i; cbn; [reflexivity|]. rewrite IH. reflexivity. Qed.
+
+Lemma rand_sim_fill phi uu d r tgt dd :
+  rand_sim phi uu d r -> dest_sim phi uu tgt dd -> rand_sim phi uu (dec_filled d tgt) (mkRandom (rr_result r) (map (fill_cat dd) (rr_cats r))).
+Proof.
+  intros [H1 H2 H3 H4] Ht. constructor; cbn.
+  - exact H1.
+  - exact H2.
+  - rewrite number_from_map'. clear - H3 Ht. induction H3 as [|a b l l' Hab _ IH]; cbn; constructor; [|exact IH].
+    destruct Hab as [Hn Hd]. split; [exact Hn|]. cbn [fst snd]. unfold fill_cat, fill_exit, cat_dest in *. cbn.
+    pose proof (dest_sim_loose _ _ _ _ Hd) as El. destruct (snd (snd a)); cbn in *; rewrite <- El; cbn; assumption.
+  - rewrite map_map. cbn. exact H4.
+Qed.
 
 Section Group.
 Variable fresh : nat -> id.
@@ -114,13 +151,15 @@ Proof.
   unfold cluster_nodes, router_idx in *. destruct c0 as [a [j|]]; cbn in *.
   - destruct (nth_error (cs_nodes sc) a) as [x|]; [|discriminate]. destruct (nth_error (cs_nodes sc) j) as [nr|] eqn:Ej; [|discriminate].
     injection Hcn as <- <-. exists nr. split; [reflexivity|].
-    inversion Hns as [| |? ? e nr' r d0 H1 H2 H3 H4 H5 H6 H7 H8 H9]; subst.
-    unfold node_loose. rewrite H1. rewrite (node_has_loose_switch _ _ _ H6), <- (dec_loose_sim _ _ _ _ H8). reflexivity.
+    inversion Hns as [| | |? ? e nr' r d0 H1 H2 H3 H4 H5 H6 H7 H8 H9]; subst.
+    unfold node_loose. rewrite H1, (ds_random _ _ _ _ H8). rewrite (node_has_loose_switch _ _ _ H6), <- (dec_loose_sim _ _ _ _ H8). reflexivity.
   - destruct (nth_error (cs_nodes sc) a) as [x|]; [|discriminate]. injection Hcn as <- <-. exists x. split; [reflexivity|].
-    inversion Hns as [? ? e H1 H2 H3 H4|? ? cls r d0 H1 H2 H3 H4 H5|]; subst.
+    inversion Hns as [? ? e H1 H2 H3 H4|? ? cls r d0 H1 H2 H3 H4 H5|? ? rr0 dr0 H1 H2 H3 H4|]; subst.
     + unfold node_loose, node_has_loose, node_exits. rewrite H1, H2. cbn. pose proof (dest_sim_loose _ _ _ _ H4) as El.
       unfold is_dnone in El. rewrite El, orb_false_r. reflexivity.
-    + unfold node_loose. rewrite H1. rewrite (node_has_loose_switch _ _ _ H2), <- (dec_loose_sim _ _ _ _ H4). reflexivity.
+    + unfold node_loose. rewrite H1, (ds_random _ _ _ _ H4). rewrite (node_has_loose_switch _ _ _ H2), <- (dec_loose_sim _ _ _ _ H4). reflexivity.
+    + unfold node_loose. rewrite H1, (rs_random _ _ _ _ H4). unfold node_has_loose, node_exits. rewrite H2. cbn [body_cats].
+      rewrite existsb_map'. apply rand_loose_sim with (phi := phi) (uu := map cn_uuid (cs_nodes sc)). exact H4.
 Qed.
 
 Lemma has_loose_sim fuel : forall phi sr sc g, Sim phi sr sc -> has_loose fuel sr g = chas_loose fuel sc g.
@@ -155,13 +194,20 @@ Proof.
   destruct (sim_nodes _ _ _ Hsim k n c0 Hk Hc0) as (nd & o & Hcn & Hns).
   assert (Hview : (exists e, snd c0 = None /\ nd = ndx /\ cn_body nd = BBasic e /\ rn_dec n = None /\ map snd (cn_actions nd) = rn_actions n
                               /\ dest_sim phi (cuu sc) (rn_cont n) (x_dest e))
-                  \/ (exists cls r d0, cn_body ndx = BSwitch cls r /\ rn_dec n = Some d0 /\ dec_sim phi (cuu sc) d0 r /\ shape_ok cls d0)).
+                  \/ (exists cls r d0, cn_body ndx = BSwitch cls r /\ rn_dec n = Some d0 /\ dec_sim phi (cuu sc) d0 r /\ shape_ok cls d0)
+                  \/ (exists r d0, snd c0 = None /\ cn_body ndx = BRandom r /\ rn_dec n = Some d0 /\ rand_sim phi (cuu sc) d0 r)).
   { unfold cluster_nodes, router_idx in *. destruct c0 as [a [j|]]; cbn in *.
     - destruct (nth_error (cs_nodes sc) a) as [x|]; [|discriminate]. rewrite Ex in Hcn. injection Hcn as <- <-.
-      inversion Hns as [| |? ? e nr' r d0 H1 H2 H3 H4 H5 H6 H7 H8 H9]; subst. right. exists SPlain, r, d0. auto.
+      inversion Hns as [| | |? ? e nr' r d0 H1 H2 H3 H4 H5 H6 H7 H8 H9]; subst. right. left. exists SPlain, r, d0. auto.
     - rewrite Ex in Hcn. injection Hcn as <- <-.
-      inversion Hns as [? ? e H1 H2 H3 H4|? ? cls r d0 H1 H2 H3 H4 H5|]; subst; [left; exists e; auto 10|right; exists cls, r, d0; auto]. }
-  destruct Hview as [(e & Ho & -> & Hb & Hdec & Hact & Hcont)|(cls & r & d0 & Hb & Hdec & Hds & Hsh)].
+      inversion Hns as [? ? e H1 H2 H3 H4|? ? cls r d0 H1 H2 H3 H4 H5|? ? rr0 dr0 H1 H2 H3 H4|]; subst;
+        [left; exists e; auto 10|right; left; exists cls, r, d0; auto|right; right; exists rr0, dr0; auto]. }
+  destruct Hview as [(e & Ho & -> & Hb & Hdec & Hact & Hcont)|[(cls & r & d0 & Hb & Hdec & Hds & Hsh)|(r & d0 & Ho & Hb & Hdec & Hrs)]].
+  3:{ assert (Ecn : connect_node n tgt = mkRNode (rn_actions n) (Some (dec_filled d0 tgt)) (rn_cont n)) by (unfold connect_node; rewrite Hdec; reflexivity).
+      rewrite Ecn. assert (Er : router_idx c0 = fst c0) by (unfold router_idx; rewrite Ho; reflexivity). rewrite Er in *.
+      assert (Ef : node_fill_loose ndx dd = with_body ndx (BRandom (mkRandom (rr_result r) (map (fill_cat dd) (rr_cats r)))))
+        by (unfold node_fill_loose; rewrite Hb; reflexivity).
+      rewrite Ef. eapply Sim_rand_update; eauto. apply rand_sim_fill; assumption. }
   - unfold connect_node. rewrite Hdec. eapply Sim_set; eauto.
     + apply (router_idx_in fresh fresh_inj).
     + unfold node_fill_loose. rewrite Hb. exact I.
@@ -230,12 +276,12 @@ Proof.
 Qed.
 
 (* ---------------------------------------------------------------- the decision node of a no_op *)
-Lemma group_sim_noop_inv phi cn ps y : group_sim phi cn (GNoOp ps None) y -> y = CGNoOp ps None /\ Forall (fun p => c_cname (snd p) = []) ps.
+Lemma group_sim_noop_inv phi cn ps y : group_sim phi cn (GNoOp ps None) y -> y = CGNoOp ps None /\ Forall (fun p => cond_ok (snd p)) ps.
 Proof. intros H. inversion H; subst. auto. Qed.
 
 Lemma group_sim_noop_router_inv phi cn ps k y :
   group_sim phi cn (GNoOp ps (Some k)) y ->
-  exists k1 nd r, y = CGNoOp ps (Some k1) /\ Forall (fun p => c_cname (snd p) = []) ps /\ nth_error phi k = Some (k1, None)
+  exists k1 nd r, y = CGNoOp ps (Some k1) /\ Forall (fun p => cond_ok (snd p)) ps /\ nth_error phi k = Some (k1, None)
                   /\ nth_error cn k1 = Some nd /\ cn_body nd = BSwitch SPlain r.
 Proof. intros H. inversion H; subst. eauto 10. Qed.
 
@@ -266,28 +312,29 @@ Lemma noop_edge_sim phi sr sc k k1 ndq rq c tgt dd n d sc' :
   Sim phi sr sc -> StOK fresh GP sc -> nth_error phi k = Some (k1, None) ->
   nth_error (cs_nodes sc) k1 = Some ndq -> cn_body ndq = BSwitch SPlain rq ->
   nth_error (s_nodes sr) k = Some n -> rn_dec n = Some d -> rn_actions n = [] ->
-  c_cname c = [] -> dest_sim phi (cuu sc) tgt dd ->
+  cond_ok c -> dest_sim phi (cuu sc) tgt dd ->
   noop_router_edge fresh sc k1 dd c = Ok sc' ->
   Sim phi (RowSem.set_node sr k (mkRNode [] (Some (noop_case nab d c tgt)) DNone)) sc'.
 Proof.
-  intros Hsim Hst Hc0 Hnq Hbq Hk Hdec Hact Hcn Hd. unfold noop_router_edge. rewrite Hnq, Hbq.
+  intros Hsim Hst Hc0 Hnq Hbq Hk Hdec Hact Hcok Hd. destruct (cond_ok_names c Hcok) as [Hnm _]. destruct Hcok as (_ & Hna & _).
+  unfold noop_router_edge. rewrite Hnq, Hbq.
   destruct (sim_nodes _ _ _ Hsim k n _ Hk Hc0) as (nd & o & Hcl & Hns). unfold cluster_nodes in Hcl. cbn in Hcl. rewrite Hnq in Hcl.
-  injection Hcl as <- <-. inversion Hns as [? ? e H1 H2|? ? cls r d0 H1 H2 H3 H4 H5|]; subst; [congruence|].
+  injection Hcl as <- <-. inversion Hns as [? ? e H1 H2|? ? cls r d0 H1 H2 H3 H4 H5|? ? rr0 dr0 H1 H2 H3 H4|]; subst; [congruence| |congruence].
   assert (d0 = d) by congruence. subst d0. assert (cls = SPlain /\ r = rq) as [-> ->] by (rewrite Hbq in H2; injection H2; auto).
   pose proof (StOK_switch fresh GP _ _ _ _ _ Hst Hnq Hbq) as Hok.
   rewrite <- Hact.
   unfold noop_case. destruct (c_value c) as [|v0 v] eqn:Ev; cbn [nonempty negb andb].
   - unfold nab. destruct (memb (c_type c) no_args_tests) eqn:Em; cbn [negb andb].
     + destruct (sw_add_choice fresh (cs_next sc) rq _ _ _ _ _ _) as [[r' n1]|x] eqn:Ea; [|discriminate]. intros H. injection H as <-.
-      rewrite Hcn in Ea.
-      destruct (dec_sim_add_case fresh fresh_inj phi (cuu sc) _ _ d rq (c_variable c) (c_type c) [] [Some []] tgt dd r' n1 H4 H5 Hok Hd Ea) as [Hds' Hpl'].
-      rewrite Hcn. eapply (Sim_dec_update fresh fresh_inj phi sr sc k n (k1, None)); eauto.
+      rewrite Hna in Ea.
+      destruct (dec_sim_add_case fresh fresh_inj phi (cuu sc) _ _ d rq (c_variable c) (c_type c) [] (ref_args c) (c_cname c) tgt dd r' n1 H4 H5 Hok Hd Hnm Ea) as [Hds' Hpl'].
+      eapply (Sim_dec_update fresh fresh_inj phi sr sc k n (k1, None)); eauto.
     + intros H. injection H as <-.
       eapply (Sim_dec_update fresh fresh_inj phi sr sc k n (k1, None)); eauto; try (apply dec_sim_set_default; assumption); try exact H5.
   - destruct (sw_add_choice fresh (cs_next sc) rq _ _ _ _ _ _) as [[r' n1]|x] eqn:Ea; [|discriminate]. intros H. injection H as <-.
-    rewrite Hcn in Ea.
-    destruct (dec_sim_add_case fresh fresh_inj phi (cuu sc) _ _ d rq (c_variable c) (c_type c) (v0 :: v) [Some (v0 :: v)] tgt dd r' n1 H4 H5 Hok Hd Ea) as [Hds' Hpl'].
-    rewrite Hcn. eapply (Sim_dec_update fresh fresh_inj phi sr sc k n (k1, None)); eauto.
+    rewrite Hna in Ea.
+    destruct (dec_sim_add_case fresh fresh_inj phi (cuu sc) _ _ d rq (c_variable c) (c_type c) (v0 :: v) (ref_args c) (c_cname c) tgt dd r' n1 H4 H5 Hok Hd Hnm Ea) as [Hds' Hpl'].
+    eapply (Sim_dec_update fresh fresh_inj phi sr sc k n (k1, None)); eauto.
 Qed.
 
 (* ---------------------------------------------------------------- what add_exit may change among the reference groups *)
@@ -375,7 +422,7 @@ Lemma fold_left_none {X} (f : st -> X -> option st) l :
 Proof. induction l as [|a r IH]; cbn; [reflexivity|exact IH]. Qed.
 
 Lemma add_exit_sim fuel : forall phi sr sc g c tgt dd sr' sc',
-  Sim phi sr sc -> StOK fresh GP sc -> c_cname c = [] -> dest_sim phi (cuu sc) tgt dd ->
+  Sim phi sr sc -> StOK fresh GP sc -> cond_ok c -> dest_sim phi (cuu sc) tgt dd ->
   add_exit nab fuel sr g c tgt = Some sr' -> cadd_exit fresh fuel sc g dd c = Ok sc' ->
   exists phi', Sim phi' sr' sc' /\ phi_le phi phi' /\ StOK fresh GP sc' /\ ext sc sc' /\ gframe sr sr' /\ pframe sr phi phi'.
 Proof.
@@ -389,7 +436,7 @@ Proof.
   destruct (Forall2_nth _ _ _ _ _ Hg Ex) as (y & Ey & Hxy). rewrite Ey in Hc.
   (* the parents of a no_op, one after the other *)
   assert (Hfold : forall (ps : list (nat * econd)) t0 d0 phi0 s0 c0 s1 c1,
-             Forall (fun p => c_cname (snd p) = []) ps -> Sim phi0 s0 c0 -> StOK fresh GP c0 -> dest_sim phi0 (cuu c0) t0 d0 ->
+             Forall (fun p => cond_ok (snd p)) ps -> Sim phi0 s0 c0 -> StOK fresh GP c0 -> dest_sim phi0 (cuu c0) t0 d0 ->
              fold_left (fun os p => match os with Some s' => add_exit nab f s' (fst p) (snd p) t0 | None => None end) ps (Some s0) = Some s1 ->
              foldM (fun s' p => cadd_exit fresh f s' (fst p) d0 (snd p)) ps c0 = Ok c1 ->
              exists phi', Sim phi' s1 c1 /\ phi_le phi0 phi' /\ StOK fresh GP c1 /\ ext c0 c1 /\ gframe s0 s1 /\ pframe s0 phi0 phi').
@@ -439,7 +486,7 @@ Proof.
       set (n0 := mkRNode [] (Some (fresh_dec (v0 :: v) WNone DNone)) DNone).
       pose proof (new_switch_dec_sim fresh fresh_inj phi1 uu1 _ _ None _ _ Enew (or_introl eq_refl)) as Hds0.
       assert (Hns0 : node_sim phi1 uu1 n0 nn None).
-      { eapply NS_router with (cls := SPlain) (r := r0) (d := fresh_dec (v0 :: v) WNone DNone); cbn; eauto. constructor. }
+      { eapply NS_router with (cls := SPlain) (r := r0) (d := fresh_dec (v0 :: v) WNone DNone); cbn; eauto. split; [constructor|split; [reflexivity|exact I]]. }
       pose proof (Sim_noop_router phi sr sc g ps n0 nn n3 r0 Hsim Ex eq_refl eq_refl Hns0) as Hsim1.
       fold j kr phi1 in Hsim1.
       set (sr1 := RowSem.set_group (fst (RowSem.add_node sr n0)) g (GNoOp ps (Some kr))) in *.
@@ -520,3 +567,4 @@ Proof.
     destruct (Hb ms sr sc sc' Hsim Hst Hd Hc) as [H1 H2]. split; [exact H1|split; [apply phi_le_refl|split; [exact H2|apply pframe_refl]]].
 Qed.
 End Group.
+End WithNames.
